@@ -103,6 +103,23 @@ theorem retry_skip_rejected {V : Type} (m : Machine V) (R H : List Field) (wf : 
     subst h2
     rfl
 
+theorem retry_by_index_aux {V : Type} (m : Machine V) (R H : List Field) (wf : m.WF R H) (o0 : Obj V)
+    (ss : List Strategy) : ∀ (o : Obj V) (i : Nat), AgreeOff (R ++ H) o o0 →
+      (retry m o ss).2 = retryResult (retryIndex (ss.map fun s => (attempt m o0 s).2) i) := by
+  induction ss with
+  | nil => intro o i _; rfl
+  | cons s rest ih =>
+    intro o i h
+    rw [retry, attempt_eq_of_agree m R H wf o o0 s h]
+    have hag := attempt_agree m R H wf o0 s
+    simp only [List.map_cons]
+    generalize attempt m o0 s = x at hag ⊢
+    obtain ⟨o', r⟩ := x
+    cases r with
+    | accept => rfl
+    | reject => exact ih o' (i + 1) hag
+    | raise e => rfl
+
 /-! ### `hasInfix`, UTF-8 -/
 
 theorem encodeUtf8Strict_ok_of_noSurrogate (s : PStr) (h : ∀ c ∈ s, isSurrogate c = false) :
